@@ -29,6 +29,9 @@ fn escape_str(w: &str) -> String {
     }
     o
 }
+pub fn escape_str_pub(w: &str) -> String {
+    escape_str(w)
+}
 fn escape_bytes(w: &[u8]) -> Vec<u8> {
     let mut o = vec![];
     for &b in w {
